@@ -17,6 +17,7 @@ for patch in "$@"; do
     files=$(grep -E '^\+\+\+ b/' "$patch" | sed 's#^+++ b/##')
     props=$(/verif/tools/props_for_files.sh $files)
   fi
+  [ -n "$PROPS" ] && props="$PROPS"   # PROPS="C10 C14": only these checks
   for p in $props; do ( $bin -prop $p -repo "$d" -verif "$sv" > "$sv/$p.out" 2>&1; echo $? > "$sv/$p.rc" ) & done; wait
   alarms=""
   for p in $props; do
